@@ -4,6 +4,7 @@ import (
 	"bytes"
 	"fmt"
 	"runtime"
+	"runtime/debug"
 	"strings"
 	"sync"
 	"sync/atomic"
@@ -228,6 +229,7 @@ type c09Race struct {
 	CloseAtUs int      `json:"close_at_us"`
 	Procs     int      `json:"procs"`
 	Seed      uint64   `json:"seed"`
+	Readers   bool     `json:"readers"` // many tables, a table cache of 1-2 entries, clients mostly reading
 }
 
 func runC09Race(c *Ctx, cfg c09Race) (sig, msg string) {
@@ -241,18 +243,41 @@ func runC09Race(c *Ctx, cfg c09Race) (sig, msg string) {
 		return "open:error", err.Error()
 	}
 	r := rng.New(cfg.Seed)
+	if cfg.Readers {
+		// many small tables, so that every read has to open one and evicts another from the table cache
+		for i := 0; i < 600; i++ {
+			db.Put([]byte(fmt.Sprintf("r%04d", i)), bytes.Repeat([]byte{'r'}, 60), nil)
+		}
+		db.CompactRange(util.Range{})
+		leveldb.VerifWaitIdle(db)
+	}
 	var wg sync.WaitGroup
 	var stop, closing int32
 	var iterMu sync.RWMutex
+	var panicMu sync.Mutex
+	var panicked string
 	start := make(chan struct{})
 	for i := 0; i < cfg.Clients; i++ {
 		wg.Add(1)
 		go func(i int, rr *rng.R) {
 			defer wg.Done()
+			defer func() {
+				if p := recover(); p != nil {
+					panicMu.Lock()
+					if panicked == "" {
+						panicked = fmt.Sprintf("client %d panicked: %v\n%s", i, p, debug.Stack())
+					}
+					panicMu.Unlock()
+				}
+			}()
 			<-start
 			for n := 0; n < 400 && atomic.LoadInt32(&stop) == 0; n++ {
 				var err error
-				switch rr.Intn(8) {
+				op := rr.Intn(8)
+				if cfg.Readers && op != 0 {
+					op = 6
+				}
+				switch op {
 				case 0, 1, 2:
 					err = db.Put([]byte(fmt.Sprintf("k%02d-%03d", i, n)), bytes.Repeat([]byte{'v'}, rr.Intn(200)), nil)
 				case 3:
@@ -275,7 +300,11 @@ func runC09Race(c *Ctx, cfg c09Race) (sig, msg string) {
 				case 5:
 					err = db.CompactRange(util.Range{})
 				case 6:
-					_, err = db.Get([]byte(fmt.Sprintf("k%02d-%03d", i, rr.Intn(n+1))), nil)
+					if cfg.Readers {
+						_, err = db.Get([]byte(fmt.Sprintf("r%04d", rr.Intn(600))), nil)
+					} else {
+						_, err = db.Get([]byte(fmt.Sprintf("k%02d-%03d", i, rr.Intn(n+1))), nil)
+					}
 					if err == leveldb.ErrNotFound {
 						err = nil
 					}
@@ -313,6 +342,11 @@ func runC09Race(c *Ctx, cfg c09Race) (sig, msg string) {
 	case <-time.After(30 * time.Second):
 		atomic.StoreInt32(&stop, 1)
 		return "call:hang:after-close", fmt.Sprintf("client calls did not return within 30 s after Close returned\n%s", dumpBlocked())
+	}
+	panicMu.Lock()
+	defer panicMu.Unlock()
+	if panicked != "" {
+		return "call:panic:racing-close", panicked
 	}
 	return "", ""
 }
@@ -354,7 +388,7 @@ func runC09SetReadOnlyClose(attempts int) (sig, msg string, fired int) {
 
 func init() {
 	Registry["C09"] = func(c *Ctx) {
-		c.Res.Rule = "A: single-client scripts (put, sync put, large batch, explicit transaction open/put/commit/discard, CompactRange, get, iterator) with one injected failure window (kind × file type × first occurrence × length × with/without effect) on journal/manifest/table create, write, sync, remove; after every return the lock state (verif export) must be free or owned by the open transaction; after healing, Put and Close must return; D: with the level-0 count at WriteL0PauseTrigger and every table compaction failing, OpenTransaction / a large batch return the error and the calls issued after the failures stop must return; B: 4–24 clients mixing Put, large Write, transactions, CompactRange and readers racing one Close, no faults; every call under a watchdog; non-trivial = the fault window was reached or Close raced live clients; distinct by configuration"
+		c.Res.Rule = "A: single-client scripts (put, sync put, large batch, explicit transaction open/put/commit/discard, CompactRange, get, iterator) with one injected failure window (kind × file type × first occurrence × length × with/without effect) on journal/manifest/table create, write, sync, remove; after every return the lock state (verif export) must be free or owned by the open transaction; after healing, Put and Close must return; D: with the level-0 count at WriteL0PauseTrigger and every table compaction failing, OpenTransaction / a large batch return the error and the calls issued after the failures stop must return; E: SetReadOnly while a memdb flush / a table compaction sits in its retry loop after failing table creations (failures going on or stopping right after SetReadOnly, Close afterwards or started between SetReadOnly's two selects): SetReadOnly, every later Put/Delete/Write/large Write/OpenTransaction/CompactRange/Get and Close must return, and after a nil SetReadOnly no write-side call may succeed; B: 4–24 clients mixing Put, large Write, transactions, CompactRange and readers racing one Close, no faults; every call under a watchdog; non-trivial = the fault window was reached or Close raced live clients; distinct by configuration"
 		kinds := []stor.Kind{stor.OpSync, stor.OpWrite, stor.OpCreate, stor.OpRemove}
 		ftypes := []storage.FileType{storage.TypeManifest, storage.TypeJournal, storage.TypeTable}
 		scripts := [][]string{
@@ -381,6 +415,10 @@ func init() {
 				c.Hung = true
 			}
 			c.Res.Eval(fmt.Sprintf("pause/%+v", cfg), true)
+		}
+		// scenario E: SetReadOnly while a compaction is in its retry loop (F, opt-in: the lost write lock)
+		if !c.Hung {
+			runC09ReadOnly(c)
 		}
 		n := c.Scale(70, 1500)
 		for i := 0; i < n && c.TimeLeft() && !c.Hung; i++ {
@@ -412,6 +450,15 @@ func init() {
 				}
 			} else {
 				cfg := c09Race{Opts: o, Clients: 4 + r.Intn(21), CloseAtUs: r.Intn(3000), Procs: r.Pick(1, 2, 4, 16), Seed: r.U64()}
+				if i%6 == 5 {
+					// reads that must open a table (and evict another) racing Close
+					cfg.Readers = true
+					cfg.Opts.OpenFiles = 1 + r.Intn(2)
+					cfg.Opts.TableSize = 2048
+					cfg.Opts.BlockCache = 512
+					cfg.CloseAtUs = 1000 + r.Intn(7000)
+					cfg.Procs = 16
+				}
 				c.Res.Count("race", fmt.Sprintf("clients-%d", cfg.Clients/8*8))
 				sig, msg = runC09Race(c, cfg)
 				replay = cfg
